@@ -514,7 +514,14 @@ PARSE_CLASSES = [
 
 
 def _cc_pos_applies(i):
-    return not i.get("cobraSide")
+    # the dash slot is wrongly used for positions *before* a real `--`; after one the two protocols agree
+    if i.get("cobraSide"):
+        return False
+    ws = (i.get("words") or [])[:-1]
+    if "--" not in ws:
+        return True
+    # after a real `--` they agree only when no word before it can be a positional (the bridge counts those too)
+    return any(not w.startswith("-") for w in ws[:ws.index("--")])
 
 
 def _cc_pos_neutral(i):
@@ -526,7 +533,7 @@ def _cc_pos_neutral(i):
 
 PARSE_CLASSES.append(
     Class("complete_protocol_positional_from_dash_slot", ("C20",), ("ccomplete",), _cc_pos_applies, _cc_pos_neutral,
-          "through cobra's `__complete` the bridged ValidArgsFunction always serves the completions registered for after `--` (or nothing): cobra 1.9.1 parses the line once with an appended `--`, the flag set keeps ArgsLenAtDash != -1, and storage.hasPositional/getPositional read that as 'after a dash'; carapace's own entry point serves the positional completions for the same position"))
+          "through cobra's `__complete` the bridged ValidArgsFunction always serves the completions registered for after `--` (or nothing): cobra 1.9.1 parses the line once with an appended `--`, the flag set keeps ArgsLenAtDash != -1, and storage.hasPositional/getPositional read that as 'after a dash'; carapace's own entry point serves the positional completions for the same position; after a real `--` the bridge still counts the words in front of it, so the two agree only when nothing but flags precedes the dash"))
 
 BY = {c.id: c for c in PARSE_CLASSES}
 BY["complete_protocol_positional_from_dash_slot"].codes = ("carapace_registered:positional_slot",)
